@@ -907,4 +907,43 @@ theorem C07_plain_machine_nests_reply_fails :
   revert this
   decide
 
+/-! ### Round G: write faults with the multiplexer as the session's handler -/
+
+/-- **behind the multiplexer too, a connection that takes no more writes never lets `Serve` return
+nil**: whatever is registered, for every input and every program of the registered handler (the
+write-fault theorems quantify over all handler programs, and the multiplexer is one: `muxProgs`) -/
+theorem C07_mux_write_fault_never_clean (reg : Bool) (cfg : Cfg) (inp : List Tok) (progs : List Prog) :
+    (serveWM reg cfg 0 inp progs).result ≠ .clean :=
+  C07_write_fault_never_clean cfg _ _ _
+
+/-- **the fallback reply that is refused terminates the stream**: nothing registered, the first
+element a get/set IQ with a payload element and addresses that parse, the connection refuses the
+next write: the session ends in that step with the write error, nothing of the fallback's error
+reaches the peer, and no later element is handled -/
+theorem C07_mux_lost_fallback_terminates (cfg : Cfg) (fuel : Nat) (rs rs' : RS) (progs : List Prog)
+    (inv : Option Inv) (w : List Tok)
+    (hstep : handleInputStream cfg rs (progs.headD Prog.nop) = .next inv w rs') (hw : w ≠ []) :
+    (serveFW cfg (fuel + 1) 0 rs progs).invs = inv.toList ∧
+    (serveFW cfg (fuel + 1) 0 rs progs).written = [] ∧
+    (serveFW cfg (fuel + 1) 0 rs progs).result = .error .writeFault := by
+  rw [C07_lost_reply_terminates cfg fuel rs rs' progs inv w hstep hw]
+  exact ⟨rfl, rfl, rfl⟩
+
+/-- a connection with more room than the session needs: the multiplexer-fronted write-fault machine
+is the plain serve loop on the multiplexer's effective programs -/
+theorem C07_mux_no_fault_same (reg : Bool) (cfg : Cfg) (left : Nat) (inp : List Tok) (progs : List Prog)
+    (h : inp.length + 2 < left) :
+    serveWM reg cfg left inp progs = serve cfg inp (muxProgs reg cfg (splitTop inp) progs) := by
+  unfold serveWM serveW serve
+  exact C07_no_fault_same cfg _ _ _ _ (by omega)
+
+example : (serveWM false { ns := nsClient, localBare := "me@example.com", jidCanon := fun s => some s } 0
+    [.start ⟨nsClient, "iq"⟩ [attr "type" "get", attr "id" "a1"], .start ⟨"urn:q", "q"⟩ [], .stop ⟨"urn:q", "q"⟩,
+     .stop ⟨nsClient, "iq"⟩, .start ⟨nsClient, "message"⟩ [], .stop ⟨nsClient, "message"⟩, .stop ⟨nsStream, "stream"⟩] []).result
+    = .error .writeFault ∧
+  (serveWM false { ns := nsClient, localBare := "me@example.com", jidCanon := fun s => some s } 5
+    [.start ⟨nsClient, "iq"⟩ [attr "type" "get", attr "id" "a1"], .start ⟨"urn:q", "q"⟩ [], .stop ⟨"urn:q", "q"⟩,
+     .stop ⟨nsClient, "iq"⟩, .stop ⟨nsStream, "stream"⟩] []).result = .clean := by
+  decide
+
 end XmppModel.Props.C07
